@@ -37,6 +37,9 @@ def run(program: Sequence[Sequence[Any]], prof: Dict[str, Any]) -> List[Dict[str
     corr = 100
     nk = 0
     last_event = None
+    step = 1
+    if prof.get("corr_order") == "descending":   # correlation ids are opaque labels: they need not grow with time
+        corr, step = 900, -1
     for a in program:
         kind = a[0]
         if kind in ("op", "step", "anno"):
@@ -67,26 +70,26 @@ def run(program: Sequence[Sequence[Any]], prof: Dict[str, Any]) -> List[Dict[str
                 evs.append(kineto.runtime("cudaMemcpyAsync", t, hd, corr))
                 evs.append(kineto.memcpy("Memcpy DtoD (Device -> Device)", ks, kd, s, corr, bw=1.0))
             stream_end[s] = ks + kd
-            corr += 1
+            corr += step
             t += hd + gap
         elif kind == "ssync":
             s = a[1]
             end = max(t + hd, stream_end.get(s, 0))
             evs.append(kineto.runtime("cudaStreamSynchronize", t, end - t, corr))
             evs.append(kineto.cuda_sync("Stream Sync", t, end - t, s, corr))
-            corr += 1
+            corr += step
             t = end + gap
         elif kind == "dsync":
             end = max([t + hd] + list(stream_end.values()))
             evs.append(kineto.runtime("cudaDeviceSynchronize", t, end - t, corr))
             evs.append(kineto.cuda_sync("Context Sync", t, end - t, -1, corr))
-            corr += 1
+            corr += step
             t = end + gap
         elif kind == "erecord":
             s = a[1]
             last_event = dict(corr=corr, stream=s, ready=stream_end.get(s, t))
             evs.append(kineto.runtime("cudaEventRecord", t, hd, corr))
-            corr += 1
+            corr += step
             t += hd + gap
         elif kind == "swait":
             s2 = a[1]
@@ -95,7 +98,7 @@ def run(program: Sequence[Sequence[Any]], prof: Dict[str, Any]) -> List[Dict[str
             extra = {"wait_on_stream": last_event["stream"], "wait_on_cuda_event_record_corr_id": last_event["corr"], "wait_on_cuda_event_id": 9}
             evs.append(kineto.runtime("cudaStreamWaitEvent", t, hd, corr))
             evs.append(kineto.cuda_sync("Stream Wait Event", t, hd, s2, corr, extra=extra))
-            corr += 1
+            corr += step
             t += hd + gap
         elif kind == "esync":
             assert last_event is not None, "esync before any erecord"
@@ -103,7 +106,7 @@ def run(program: Sequence[Sequence[Any]], prof: Dict[str, Any]) -> List[Dict[str
             extra = {"wait_on_stream": last_event["stream"], "wait_on_cuda_event_record_corr_id": last_event["corr"], "wait_on_cuda_event_id": 9}
             evs.append(kineto.runtime("cudaEventSynchronize", t, end - t, corr))
             evs.append(kineto.cuda_sync("Event Sync", t, end - t, -1, corr, extra=extra))
-            corr += 1
+            corr += step
             t = end + gap
         else:
             raise ValueError(a)
